@@ -430,6 +430,73 @@ impl RibUnitRunner {
         (runner, gate_agent)
     }
 
+    /// Verification hook: a runner for a physical RIB outside of a running
+    /// pipeline (what `mock` builds under cfg(test)), with a caller supplied
+    /// ingress register.
+    #[cfg(feature = "verif-hooks")]
+    pub fn verif_new(
+        ingress_register: Arc<ingress::Register>,
+    ) -> (Self, crate::comms::GateAgent) {
+        let rib_type = RibType::Physical;
+        let (gate, gate_agent) = Gate::new(0);
+        let gate = gate.into();
+        let query_limits =
+            Arc::new(ArcSwap::from_pointee(QueryLimits::default()));
+        let rib = Rib::new_physical();
+        let status_reporter = RibUnitStatusReporter::default().into();
+        let pending_vrib_query_results = Arc::new(FrimMap::default());
+        let filter_name =
+            Arc::new(ArcSwap::from_pointee(FilterName::default()));
+        let _process_metrics = Arc::new(TokioTaskMetrics::new());
+        let rib_merge_update_stats: Arc<RibMergeUpdateStatistics> =
+            Default::default();
+        let shared_rib = Arc::new(ArcSwap::new(Arc::new(rib)));
+        let http_processor = Arc::new(PrefixesApi::new(
+            shared_rib.clone(),
+            Arc::new("/prefixes/".to_string()),
+            query_limits.clone(),
+            rib_type,
+            None,
+            pending_vrib_query_results.clone(),
+            ingress_register,
+        ));
+        let tracer = Arc::new(Tracer::new());
+        let runner = Self {
+            gate,
+            http_processor,
+            query_limits,
+            rib: shared_rib,
+            rib_type,
+            status_reporter,
+            filter_name,
+            pending_vrib_query_results,
+            _process_metrics,
+            rib_merge_update_stats,
+            tracer,
+            roto_function_pre: None,
+            roto_function_post: None,
+        };
+        (runner, gate_agent)
+    }
+
+    #[cfg(feature = "verif-hooks")]
+    pub async fn verif_process_update(
+        &self,
+        update: Update,
+    ) -> Result<(), String> {
+        self.process_update(update).await
+    }
+
+    #[cfg(feature = "verif-hooks")]
+    pub fn verif_rib(&self) -> Arc<Rib> {
+        self.rib.load().clone()
+    }
+
+    #[cfg(feature = "verif-hooks")]
+    pub fn verif_http_processor(&self) -> Arc<PrefixesApi> {
+        self.http_processor.clone()
+    }
+
     fn http_api_path_for_rib_type(
         http_api_path: &str,
         rib_type: RibType,
